@@ -243,11 +243,12 @@ class Schedules(Stream):
             spec = [(0, 16, ['all']), (4, 16, ['best'])]
         else:
             spec = [(1, 28, list(es.MODES)), (4, 28, list(es.MODES)), (0, 18, ['best', 'all'])]
-        return [dict(ds_seed=base.randint(1, 10 ** 9), nq=nq, extra=es.PARAM_SETS[k], modes=ms, tier=tier) for k, nq, ms in spec]
+        # twodel: molecules whose first pass leaves TWO fragments with the same id (both aligned in the second pass)
+        return [dict(ds_seed=base.randint(1, 10 ** 9), nq=nq, extra=es.PARAM_SETS[k], modes=ms, tier=tier, twodel=4) for k, nq, ms in spec]
 
     def impl(self, case):
-        ds = es.make_dataset(case['ds_seed'], case['nq'])
-        e2e.materialise(ds, 'c09_%d_%d' % (case['ds_seed'], case['nq']))
+        ds = es.make_dataset(case['ds_seed'], case['nq'], twodel=case.get('twodel', 0))
+        e2e.materialise(ds, 'c09_%d_%d_%d' % (case['ds_seed'], case['nq'], case.get('twodel', 0)))
         rp, qp = os.path.join(ds['dir'], 'r.cmap'), os.path.join(ds['dir'], 'q.cmap')
 
         def thunk(mode, cfg, use_cache):
